@@ -25,6 +25,7 @@ def main (args : List String) : IO UInt32 := do
   match args with
   | ["values"] => loop stdin stdout ({} : ValState) valuesStep; return 0
   | ["wire"] => loop stdin stdout ({} : ValState) wireStep; return 0
+  | ["forest"] => loop stdin stdout ({} : ForestState) forestStep; return 0
   | ["capconc"] => loop stdin stdout ({} : CapCState) capcStep; return 0
   | ["pred"] => loop stdin stdout ({} : PredState) predStep; return 0
   | ["arenaconc"] => loop stdin stdout ({} : ArenaState) arenaStep; return 0
